@@ -27,6 +27,7 @@ type Case struct {
 	// Fail2J > FailJ: a second failing statement further down the same file. The first one is repaired and the directory
 	// re-applied (stops at the second one), then the second one is repaired and the directory applied once more.
 	Fail2J int `json:"fail2_j,omitempty"`
+	CRLF   bool `json:"crlf,omitempty"` // files written with Windows line endings
 	// Ckpt: 0-based indexes of the files that are checkpoints. A fresh database starts at the last one (which creates the
 	// journal itself, IF NOT EXISTS, as its first statement); the files before it never run and are never recorded.
 	Ckpt []int `json:"ckpt,omitempty"`
@@ -90,6 +91,9 @@ func (c Case) file(f int, fixed int) string {
 	for j := 0; j < c.Shape[f]; j++ {
 		failing := f == c.FailF && (fixed == 0 && j == c.FailJ || fixed <= 1 && c.Fail2J > 0 && j == c.Fail2J)
 		b.WriteString(stmt(f, j, failing, c.FailKind, c.isCk(f)))
+	}
+	if c.CRLF {
+		return strings.ReplaceAll(b.String(), "\n", "\r\n")
 	}
 	return b.String()
 }
